@@ -627,6 +627,8 @@ func (c *MJMLComponent) RegisterCarouselCSS(css string) {
 
 // collectCarouselCSS recursively collects carousel CSS from all components
 func (c *MJMLComponent) collectCarouselCSS() {
+	// Start from scratch on every render: the same component tree may be rendered more than once.
+	c.carouselCSS.Reset()
 	if c.Body != nil {
 		c.collectCarouselCSSFromComponent(c.Body)
 	}
